@@ -36,9 +36,9 @@ var cfgs = map[string]propCfg{
 		rule: "one evaluation = one run under the stall adversary: every Async provider parks inside its function and is released only at global quiescence; all needed input-free Async providers must be inside at that point (that execution is the witness the property asks for). Programs have >= 1 input-free Async provider and >= 2 Async providers. distinct = distinct event-log hashes"},
 	"C06": {prof: progen.Profile{Name: "C06", Families: true, WantFallible: true, RiskyShapes: 30}, quickProgs: 400, quickRuns: 60, thoroughProgs: 600, thoroughBatch: 10, thoroughRuns: 400,
 		rule: "one evaluation = one seeded schedule under one failure plan: every needed fallible provider failing alone (enumerated), random pairs/triples, all; unneeded fallible providers set to fail too; select branches forced both ways when both are ready. Oracle: non-nil error, errors.Is one of the failures that occurred before the return (unless the caller cancelled), no dependent of a failed provider ever entered, the injector returns. distinct = distinct event-log hashes of runs in which a provider really failed"},
-	"C07": {prof: progen.Profile{Name: "C07", Families: true, WantAsync: true, RiskyShapes: 30}, quickProgs: 400, quickRuns: 30, thoroughProgs: 600, thoroughBatch: 8, thoroughRuns: 120,
+	"C07": {prof: progen.Profile{Name: "C07", Families: true, WantAsync: true, RiskyShapes: 30, CtxOdds: 4}, quickProgs: 400, quickRuns: 30, thoroughProgs: 600, thoroughBatch: 8, thoroughRuns: 120,
 		rule: "one evaluation = one seeded schedule with a caller cancellation: for fault-free base schedules of length L the caller context is cancelled at EVERY scheduler step 0..L (0 = before the call; prefix replays the base, suffix seeded), plus cancellation/deadline at simulated times against provider latencies and context-aware providers. Oracle: the injector returns; without an error it returns the reference term. distinct = distinct event-log hashes of runs in which the cancellation struck before the return"},
-	"C08": {prof: progen.Profile{Name: "C08", Families: true, WantAsync: true, RiskyShapes: 30}, quickProgs: 400, quickRuns: 30, thoroughProgs: 600, thoroughBatch: 8, thoroughRuns: 120,
+	"C08": {prof: progen.Profile{Name: "C08", Families: true, WantAsync: true, RiskyShapes: 30, CtxOdds: 3}, quickProgs: 400, quickRuns: 30, thoroughProgs: 600, thoroughBatch: 8, thoroughRuns: 120,
 		rule: "one evaluation = one seeded schedule under a fault-free, provider-failure, cancellation or failure+cancellation plan; after the injector's return event the caller does nothing more and the simulation continues to quiescence; any thread not exited then is a leak. distinct = distinct event-log hashes"},
 }
 
